@@ -13,6 +13,7 @@ pub mod damage;
 pub mod fault;
 pub mod keys;
 pub mod multi;
+pub mod power;
 pub mod reclaim;
 pub mod seq;
 
@@ -194,6 +195,7 @@ pub fn replay_any(body: &Value) -> Result<Option<String>, String> {
         Some("reclaim") => reclaim::replay(body),
         Some("multi") => multi::replay(body),
         Some("damage") => damage::replay(body),
+        Some("power") => power::replay(body),
         Some("c02-erasure") => seq::c02_erasure_replay(body),
         Some(k) => Err(format!("unknown replay kind {}", k)),
         None => Err("replay without kind".into()),
